@@ -22,6 +22,7 @@ type zzSignal struct {
 }
 
 type zzFactory struct {
+	onSignal func(target, action string)
 	remotes map[string]*remote.Remote
 	signals []zzSignal
 	creates []string
@@ -53,6 +54,9 @@ func (f *zzFactory) Create(address string) (types.Backend, error) {
 }
 
 func (f *zzFactory) SignalToAdd(target string, action string) error {
+	if f.onSignal != nil {
+		f.onSignal(target, action)
+	}
 	ok := true
 	if f.dead[target] {
 		ok = false
@@ -164,7 +168,9 @@ func (e *zzEnv) zzAttach(i int, mode types.Mode) {
 
 // zzSymbolicEnv builds an arbitrary quiescent controller state satisfying Inv-C:
 // n <= RF replicas, modes RW/WO with at most one WO, status fields consistent.
-func zzSymbolicEnv(rf int) *zzEnv {
+func zzSymbolicEnv(rf int) *zzEnv { return zzSymbolicEnvReg(rf, false) }
+
+func zzSymbolicEnvReg(rf int, withReg bool) *zzEnv {
 	e := zzNewEnv(rf)
 	n := zzConcretize(zzChoice("n", rf+1))
 	e.n = n
@@ -178,6 +184,13 @@ func zzSymbolicEnv(rf int) *zzEnv {
 		}
 	}
 	zzAssume(wo <= 1)
+	if withReg {
+		for i := 0; i < n; i++ {
+			if zzNondetBool("pre.reg." + zzHosts[i]) {
+				e.c.RegisteredReplicas[zzHosts[i]] = types.RegReplica{Address: zzHosts[i], UUID: "uuid-" + zzHosts[i], RepState: "closed"}
+			}
+		}
+	}
 	if n > 0 {
 		e.fe.state = types.StateUp
 	}
@@ -265,11 +278,22 @@ func (e *zzEnv) zzCheckInvC(tag string, settled bool, success bool) {
 		zzAssert(c.ReadOnly == (rw < c.ReplicationFactor/2+1), tag+".inv6b.readonly-stale")
 		zzAssert(c.RWReplicaCount == rw, tag+".inv6b.rwcount-stale")
 	}
+	// (8) a checkpoint is recorded only while all RF replicas are RW
+	if settled {
+		zzAssert(zzImplies(c.Checkpoint != "", rw == c.ReplicationFactor), tag+".inv8.checkpoint-without-all-RW")
+	}
 	// (7) no ERR entry survives settling; no call reaches a detached backend
 	if settled {
 		zzAssert(nonErr == len(c.replicas), tag+".inv7.err-entry-left")
 	}
 	zzAssert(!zzmodel.CallAfterDetach, tag+".inv7.call-after-detach")
+	// from now on a replica that is neither listed nor has a backend must see no call
+	for _, m := range zzmodel.Replicas {
+		_, hasBackend := c.backend.backends[m.Addr]
+		if !hasBackend && !e.attached(m.Addr) && m.State != "closed" {
+			m.Detached = true
+		}
+	}
 	zzAssert(!zzmodel.UnlockedCall, tag+".lock-discipline")
 	zzAssert(zzLockDepth(&c.RWMutex) == 0, tag+".lock-leaked")
 }
